@@ -28,6 +28,12 @@ FRONT_END_ERRORS = [
     "x := &\n", "print(1)\nprint(2\n", "y := \"a\\qb\"\n", "z := 99999999999999999999\n", "if true {\n", "x := \"$\"\n",
     "x := $\"$a\"\n", "x := \"\\xzz\"\n", "fn f( {\n}\n", "print(1) print(2)\n", "\n\n\n   }\n", "x = = 1\n", "é := 1\n",
 ]
+# every operator / punctuation / keyword token where the grammar has no use for it: the message names it in source form
+_NO_START = ["->", "===", "!==", "==", "!=", "<=", ">=", "<", ">", "&&", "||", "+", "*", "/", "%", "+=", "-=", "*=", "/=", "%=", ":=", "=",
+             ")", "]", "}", ",", ":", ".", "..", "in", "else"]
+FRONT_END_ERRORS += ["%s x\n" % t for t in _NO_START] + ["print(1)\nx := (%s)\n" % t for t in _NO_START + ["while", "for", "if", "return", "break", "continue"]] + \
+                    ["x := [1 %s]\n" % t for t in ("->", "===", "!==", ":=", "=", "+=", "}", ")", "while", "else")] + \
+                    ["x := 1 %s\n" % t for t in (")", "]", "}", ",", ":", ":=", "=", "+=", "else", "in", "fn", "while", "x", "2", "\"s\"", "null", "true")]
 
 
 def run(rep, tier):
